@@ -751,8 +751,13 @@ class Repo(object):
                     "encode", "decode", "lower", "upper", "strip", "rstrip", "lstrip",
                     "join", "split", "replace", "format",
                 ):
+                    kws = {}
+                    for kw in node.keywords:
+                        if kw.arg is None:
+                            raise Unknown("method **kwargs")
+                        kws[kw.arg] = ev(kw.value)
                     try:
-                        return getattr(base, f.attr)(*args)
+                        return getattr(base, f.attr)(*args, **kws)
                     except Exception as e:
                         raise Unknown("method failed: %s" % e)
                 if isinstance(base, dict) and f.attr in ("keys", "values", "items", "copy"):
